@@ -102,11 +102,14 @@ def is_neg_zero(x):
 
 
 def in_listing_class(v):
-    """diagram built by from_dict that lists (-inf, 0) before (1, inf) (ties in the distance from the goal are processed in
-    listing order) and a transformation leg from beyond R = 1 to a target inside (0, 1): the cycle is parked at R = -inf
-    after (-inf, 0) has been walked and is not picked up again.  Legs: cycle -> R_goal, cycle -> R_1, R_1 -> R_goal."""
+    """diagram built by from_dict in another listing order than the constructors' ((1, inf) first, (-inf, 0) second, then
+    ascending R) and a transformation leg from beyond R = 1 to a target inside (0, 1).  (1, inf) and (-inf, 0) tie in the
+    distance from every goal; the order in which ties are walked is whatever Series.sort_values() (default kind, which is
+    NOT stable for 4 or more float64 values with this numpy) makes of the listing.  If (-inf, 0) comes first the cycle is
+    parked at R = -inf after (-inf, 0) has been walked and is not picked up again.
+    Legs: cycle -> R_goal, cycle -> R_1, R_1 -> R_goal."""
     d = v.get('diagram', {})
-    if not ms.neg_inf_listed_before_beyond_one(d) or 'cycle' not in v:
+    if not ms.listed_otherwise_than_constructor(d) or 'cycle' not in v:
         return False
 
     def inside(g):
@@ -135,7 +138,7 @@ def in_negzero_class(v):
 
 def register_classes(res):
     res.classes['five-segment-M4-target-neg-inf'] = in_known_class
-    res.classes['from-dict-neg-inf-segment-listed-before-beyond-one'] = in_listing_class
+    res.classes['from-dict-listing-other-than-constructor'] = in_listing_class
     res.classes['matrix-rows-not-in-product-order'] = in_rows_class
     res.classes['collective-upper-value-negative-zero'] = in_negzero_class
 
@@ -279,15 +282,21 @@ def batch(res, rng, d, Rg, stats, terms, info, cyc=None):
         sc = scale_of(a, m)
         args = (qlit(2 * fa[k]), qlit(fm[k])) if as_rm else (qlit(ft[0]), qlit(ft[1]))
         Rc = cyc_R_float(ft)
-        # model vs implementation: amplitude and mean of the resulting collective (mean only where it is finite)
-        if math.isfinite(amps[k]) and math.isfinite(means[k]):
+        # model vs implementation: amplitude and mean of the resulting collective (mean only where it is finite).
+        # While the finding segment-listing-order reproduces, the cases of its class are not compared: there the result depends
+        # on the order in which sort_values() (default kind: not stable) returns the two tied segments, which the code leaves
+        # unspecified and the model (stable sort) cannot predict; the property's relations below run on them all the same.
+        if stats['fofx'].startswith('false') and in_listing_class(dict(diagram=d, R_goal=Rg, cycle=list(ft))):
+            stats['tie_order_unspecified'] += 1
+        elif math.isfinite(amps[k]) and math.isfinite(means[k]):
             terms.append('obs_close %s %s (transform_ord %s %s %s (%s %s %s)) %s %s' % (
                 qlit(TOL), qlit(sc), stats['fofx'], dl, gl, ctor, args[0], args[1], qlit(amps[k]), qlit(means[k])))
         else:
             terms.append('false')
-        info.append({'diagram': d, 'R_goal': Rg, 'cycle': list(ft), 'interface': 'collective/' + cols[0] + '/' + layout,
-                     'impl_amplitude': amps[k], 'impl_mean': means[k]})
-        stats['nontrivial'].add((repr(sorted(d.items(), key=str)), Rg, ft))
+        if len(info) < len(terms):
+            info.append({'diagram': d, 'R_goal': Rg, 'cycle': list(ft), 'interface': 'collective/' + cols[0] + '/' + layout,
+                         'impl_amplitude': amps[k], 'impl_mean': means[k]})
+            stats['nontrivial'].add((repr(sorted(d.items(), key=str)), Rg, ft))
         key = 'R>1' if (Rc != -INF and Rc > 1) else 'R=-inf' if Rc == -INF else 'R<=0' if Rc <= 0 else '0<R<1'
         stats['cycle_regions'][key] = stats['cycle_regions'].get(key, 0) + 1
         base = dict(diagram=d, R_goal=Rg, cycle=list(ft))
@@ -591,7 +600,8 @@ def run(res):
                         'max(1, amplitude + |mean|)',
                         'amplitude > 0, 0 <= M2 <= M < 1 resp. five-segment parameters with 0 < R12 < R23 < 1 and no vanishing divisor; '
                         'R_goal not in {1, +inf}; cycles whose exact iso-damage amplitude is not positive are skipped by the relations',
-                        'pandas sort_values on <= 5 distances is stable (ties keep IntervalIndex order); checked by the correspondence']
+                        'pandas sort_values keeps the tie (1, inf) before (-inf, 0) for the listing order of the constructors (default kind; with this numpy it is NOT '
+                        'stable in general for >= 4 float64 values -- part of the open finding segment-listing-order); checked by the correspondence on every run']
     res.cov['rule'] = ('diagrams: FKM-Goodman (M dyadic in [0,1), M2 <= M, M2 = M, M2 = 0, default M/3) and five-segment (dyadic and non-dyadic R12 < R23, '
                        'slopes in [0,1), 10% wild slopes in [-2,2] with divisors bounded away from 0); targets: -inf, borders 0/R12/R23, segment mids '
                        '(distance 0), dyadic R < 1 and R > 1; cycles: random dyadic (amplitude, mean), exactly on borders / on the target / 2^-k beside '
@@ -604,7 +614,8 @@ def run(res):
 
     stats = {'calls': 0, 'oracle': 0, 'paths': 0, 'at_target': 0, 'mono_pairs': 0, 'multi': 0, 'hist': 0, 'hist_degenerate': 0,
              'skipped_goal_or_divisor': 0, 'nontrivial': set(), 'cycle_regions': {}, 'rebin_hyp_ok': 0, 'rebin_hyp_bad': 0,
-             'rebin_hyp_examples': [], 'hist_layouts': {}, 'hist_booked': 0, 'signed_zero': 0, 'listed': {}}
+             'rebin_hyp_examples': [], 'hist_layouts': {}, 'hist_booked': 0, 'signed_zero': 0, 'listed': {},
+             'tie_order_unspecified': 0}
     terms, info, rterms, rinfo = [], [], [], []
     # which variant of the model is the code?  fx = false: the code with the open finding five-segment-target-neg-inf
     # (cycles at R > 1 are not moved when R_goal = -inf); fx = true: the repaired code.  Decided by replaying the finding's
@@ -679,7 +690,7 @@ def run(res):
     res.add_cases(len(terms) + len(rterms), nontrivial=len(stats['nontrivial']))
     res.add_cases(stats['oracle'] + stats['paths'] + stats['mono_pairs'] + stats['multi'], nontrivial=0)
     for k in ('corpus_batches', 'calls', 'oracle', 'paths', 'at_target', 'mono_pairs', 'multi', 'hist', 'hist_degenerate', 'skipped_goal_or_divisor',
-              'cycle_regions', 'hist_layouts', 'hist_booked', 'signed_zero', 'listed'):
+              'cycle_regions', 'hist_layouts', 'hist_booked', 'signed_zero', 'listed', 'tie_order_unspecified'):
         res.cov['impl_' + k if k == 'calls' else k] = stats[k]
     res.cov['listed'] = {'from_dict listing (rotation of the natural order) %d' % k: v for k, v in sorted(stats['listed'].items())}
     for k in ('multi_rejected', 'multi_rejected_example', 'hist_rejected', 'hist_rejected_example'):
